@@ -72,6 +72,23 @@ def closest_ties_safe(x, xr, exact):
     return True
 
 
+def adaptive_stable(c, y, rng):
+    """adaptive windows are integers computed from ratios of jumps: when y carries rounding (not exact dyadics) the model's
+    exact y and the float y differ in the last bits, so the split must be stable under such perturbations (ties included)"""
+    chk = dict(c)
+    chk["y"] = [float(v) for v in y]
+    base = rfa_units.adaptive_windows_exact(chk)
+    if not base[2]:
+        return False
+    if is_exact(y):
+        return True
+    for _ in range(4):
+        chk["y"] = [float(v) + (abs(float(v)) + 1e-300) * rng.uniform(-1, 1) * 1e-10 for v in y]
+        if rfa_units.adaptive_windows_exact(chk)[:2] != base[:2]:
+            return False
+    return True
+
+
 class DrawRecorder:
     """replacement for numpy.random.normal during Weaver.noise: returns a fixed dyadic draw, records the arguments"""
 
@@ -266,6 +283,8 @@ Definition prog_ok (x : option (list Qc)) (y : list Qc) (e : option exn) (steps 
             if c["strategy"] == "function":
                 c["coef"] = [0.5, 1.0]
                 c["fn_kind"] = "poly"
+            if c["strategy"] in ("linadapt", "expadapt") and not adaptive_stable(c, np.asarray(w.y, dtype=float), rng):
+                return None    # the integer window split is not robust against the rounding already present in y (DESIGN 3.6)
             return c
         if name == "integral_match":
             if not closest_ties_safe(x, np.asarray(w.reference_x, dtype=float), exact and is_exact(w.reference_x)):
